@@ -6,6 +6,8 @@ Engine H.  Three kinds of cases, all executed on the real classes:
          evaluation the value (or exception) is compared with the value a brand-new cache gives when it
          is evaluated at that point only (differential oracle, live object vs fresh object).
   perm : ALL injective sequences (orders of visit) over "one point per cell" sets, same oracle.
+  abort: every history "evaluation aborted by an exception of the wrapped function (at every call it can fail on), then any
+         cell, then the first cell again", and every three-step history over a wrapped function with a limited domain; same oracle.
   grid : a lattice of areas x resolutions x functions x no_boundary_error; each cache is swept over
          every sampling node, several points per cell, the edges and outside points, forwards and
          backwards, under every function_boundaries variant, and compared with the closed-form
@@ -84,6 +86,7 @@ BOUND = {
     "quick": "hist: all sequences of length <= 3 (1D: every role point of the 4- and 3-cell areas, 13 points of the 8-cell area; 2D: 26 points; "
              "3D: 16 points) x 2 functions x nbe x 4 bounds; "
              "perm: 1D all injective sequences of <= 4 cells (4!, 3!, 8*7*6*5), 2D all injective 4-sequences over 12 cells, 3D all injective 4-sequences over a 2x2x2 block; "
+             "abort: every (first cell, failing call k, second cell) and every (first, second, third cell) history over the cells of the 1D/2D areas and 9 cells of the 3D area; "
              "grid: full geometry lattice, forward and reverse sweeps",
     "thorough": "hist: 1D all sequences of length <= 4; perm 1D injective 5-sequences; 2D length <= 3 over 36 points and <= 4 over 16; 3D length <= 3 over 30 points and "
                 "<= 4 over 8; x 5 bounds; perm: 2D injective 5-sequences, 3D injective 5-sequences over the block and 3-sequences over all "
@@ -100,7 +103,8 @@ ASSUMPTIONS = [
     "history independence threshold 1e-13*scale (bit-identical values are counted in the outcome); reference tolerances 1e-9*scale, "
     "scale = max |f| over the sampled nodes; justified for <= 50 cells per axis since a cubic in coordinates normalised to [0,1] "
     "loses at most ~ncells^3 ulp",
-    "wrapped functions are finite (no NaN) and do not raise",
+    "wrapped functions are finite (no NaN); they do not raise except in the abort family, where they raise a dedicated exception either once "
+    "(transient) or whenever the first coordinate is beyond the last inner node (limited domain)",
 ]
 REQUIRED_CLASSES = [
     "dim:1", "dim:2", "dim:3",
@@ -108,7 +112,8 @@ REQUIRED_CLASSES = [
     "hist:inside-after-raise", "hist:inside-after-passthrough", "perm:1", "perm:2", "perm:3",
     "ref:node", "ref:multilinear", "ref:h2-bound", "ref:outside-raise", "ref:outside-passthrough", "ref:band", "ref:in",
     "ref:bounds:wide", "ref:bounds:point", "ref:bounds:narrow", "ref:geom:near", "ref:geom:far-offset", "ref:single-cell-axis",
-    "grid:fwd-vs-rev",
+    "grid:fwd-vs-rev", "abort:transient:propagated", "abort:transient:then-same-cell", "abort:transient:then-other-cell",
+    "abort:domain:raising-cell-first", "abort:domain:working-cell-first",
 ]
 BUDGET_S = {"quick": 300, "thorough": 2400}   # ~175 / ~3250 CPU-seconds: 11 s / 3.5 min on 16 idle cores
 CHUNK = 4
@@ -416,6 +421,94 @@ def _run_perm(case):
     return acc.result(("perm", cfg, L, first, nseq, acc.n, nonbit, len(acc.viol)))
 
 
+# ---------------------------------------------------------------------------------------- abort
+def _run_abort(case):
+    """Histories in which an evaluation is aborted by the wrapped function.
+
+    transient : the wrapped function raises once, on its k-th call (every k an evaluation of the first point can reach); afterwards it
+                works.  The aborted evaluation must leave no trace: every later evaluation (any second point, then the first point
+                again) equals what a brand-new cache over the never-failing function returns there.
+    domain    : the wrapped function raises whenever its first coordinate lies beyond the last inner node of the first axis (a wrapped
+                interpolator without extrapolation asked for the outer sampling node).  The outcome at a point (value or exception)
+                must be the outcome a brand-new cache over the same function gives when evaluated there only.
+    """
+    d, gname, nbe, fbname, first = case["d"], case["geom"], case["nbe"], case["fb"], case["first"]
+    fid = "smooth"
+    cfg = (d, gname, fid, nbe, fbname)
+    cx = _ctx(d, gname)
+    geom, lat = cx["geom"], cx["lat"]
+    cells = cx["cells"] if d < 3 else cx["block"] + [cl for cl in cx["cells"] if all(k == n - 1 for k, n in zip(cl, lat.ncells))]
+    points = [cx["cpts"][cl] for cl in cells]
+    labels = ["cell" + "".join(str(k) for k in cl) for cl in cells]
+    f = R.make(fid, d)
+    scale = cx["scale"].get(fid)
+    if scale is None:
+        scale = cx["scale"][fid] = _scale(d, geom, fid, lat)
+    name = "Caching%dD" % d
+    acc = Acc()
+    acc.cls("dim:%d" % d)
+    p1 = points[first]
+
+    def same(v, w):
+        if isinstance(v, str) or isinstance(w, str):
+            return v == w
+        return v == w or close(v, w, 1e-13, scale)
+
+    if case["mode"] == "transient":
+        fresh = [_fresh(cfg, geom, p) for p in points]
+        K = fresh[first][1]
+        for k in range(K):
+            for j, p2 in enumerate(points):
+                rec = R.FailingRec(f, fail_at=k)
+                c = _build(d, geom, rec, nbe, fbname)
+                v1 = _ev(c, p1)
+                if v1 != "EXC:Abort":
+                    acc.V("%s:abort:exception-of-wrapped-function-not-propagated" % name,
+                          "%s nbe=%s bounds=%s: the wrapped function raised on call #%d while %s was evaluated" % (gname, nbe, fbname, k, labels[first]), "EXC:Abort", v1)
+                    continue
+                acc.cls("abort:transient:propagated")
+                state = (cfg, "transient", first, k)
+                for step, (i, p) in enumerate(((j, p2), (first, p1))):
+                    v = _ev(c, p)
+                    acc.n += 1
+                    acc.transitions += 1
+                    acc.nontrivial.add((state, step, i))
+                    if not same(v, fresh[i][0]):
+                        acc.V("%s:history:after-aborted-evaluation:%s" % (name, "same-cell" if i == first else "other-cell"),
+                              "%s nbe=%s bounds=%s: evaluation of %s aborted by an exception of the wrapped function (its call #%d); then %s evaluated "
+                              "(evaluation #%d after the abort) differs from a fresh cache evaluated there only"
+                              % (gname, nbe, fbname, labels[first], k, labels[i], step + 1), fresh[i][0], v)
+                acc.states.add(state + (j,))
+                acc.cls("abort:transient:then-same-cell" if j == first else "abort:transient:then-other-cell")
+    else:
+        beyond = lat.all[0][-2] + 1e-6 * (lat.all[0][-1] - lat.all[0][-2])
+        fr = []
+        for p in points:
+            rec = R.FailingRec(f, beyond=beyond)
+            fr.append(_ev(_build(d, geom, rec, nbe, fbname), p))
+        if first == 0:
+            if "EXC:Abort" not in fr or all(isinstance(v, str) for v in fr):
+                raise RuntimeError("abort/domain: expected some cells to need the outer node and some not: %r" % (fr,))
+        for j in range(len(points)):
+            for i3 in range(len(points)):
+                rec = R.FailingRec(f, beyond=beyond)
+                c = _build(d, geom, rec, nbe, fbname)
+                state = (cfg, "domain", first, j)
+                for step, i in enumerate((first, j, i3, first)):
+                    v = _ev(c, points[i])
+                    acc.n += 1
+                    acc.transitions += 1
+                    if step:
+                        acc.nontrivial.add((state, step, i))
+                    if not same(v, fr[i]):
+                        acc.V("%s:history:wrapped-function-with-limited-domain:%s" % (name, "fresh-raises" if isinstance(fr[i], str) else "fresh-returns"),
+                              "%s nbe=%s bounds=%s: wrapped function raises beyond x=%r; evaluation #%d of the sequence %s differs from a fresh cache evaluated there only"
+                              % (gname, nbe, fbname, beyond, step + 1, [labels[q] for q in (first, j, i3, first)]), fr[i], v)
+                acc.states.add(state + (i3,))
+        acc.cls("abort:domain:raising-cell-first" if isinstance(fr[first], str) else "abort:domain:working-cell-first")
+    return acc.result(("abort", cfg, case["mode"], first, acc.n, len(acc.viol)))
+
+
 # ----------------------------------------------------------------------------------------- grid
 def _grid_points(lat):
     d = lat.d
@@ -520,6 +613,8 @@ def run_case(case):
         return _run_hist(case)
     if k == "perm":
         return _run_perm(case)
+    if k == "abort":
+        return _run_abort(case)
     return _run_grid(case)
 
 
@@ -592,6 +687,16 @@ def cases(tier):
                     for first in range(ncell):
                         out.append({"kind": "perm", "d": d, "geom": gname, "f": fid, "nbe": nbe, "fb": fb, "set": cset, "L": L, "first": first,
                                     "tier": tier, "label": "perm:%dD" % d})
+    # abort: evaluations aborted by an exception of the wrapped function
+    for d in (1, 2, 3):
+        gname = sorted(HIST_GEOMS[d])[0] if d > 1 else "g4"
+        ncell = _prod(NCELLS[gname]) if d < 3 else 2 ** d + 1
+        for mode in ("transient", "domain"):
+            for nbe in (False, True):
+                for fb in (("none", "wide") if tier == "quick" else fbs):
+                    for first in range(ncell):
+                        out.append({"kind": "abort", "d": d, "geom": gname, "mode": mode, "nbe": nbe, "fb": fb, "first": first, "tier": tier,
+                                    "label": "abort:%dD:%s" % (d, mode)})
     return out
 
 
